@@ -595,7 +595,9 @@ func (g *generator) genLit(f *File, t *Type, depth, cd int) *Lit {
 	d := root.Ref
 	if d.Kind == Enum {
 		it := d.Items[r.Intn(len(d.Items))]
-		if r.Chance(1, 3) {
+		// an item can only be named if the enum's file is this file or directly included
+		// (a struct literal may reach enums of files that are included transitively only)
+		if r.Chance(1, 3) || !(d.File == f || contains(f.Includes, d.File)) {
 			return &Lit{K: LInt, I: int64(it.Value)}
 		}
 		return &Lit{K: LEnumRef, Enum: d, Item: it}
@@ -609,13 +611,13 @@ func (g *generator) genLit(f *File, t *Type, depth, cd int) *Lit {
 			}
 		}
 		fl := c[r.Intn(len(c))]
-		l.Items = append(l.Items, &Lit{K: LString, S: fl.Name}, g.genLit(f, fl.Type, depth-1, cd-1))
+		l.Items = append(l.Items, &Lit{K: LString, S: fl.Name, Field: fl}, g.genLit(f, fl.Type, depth-1, cd-1))
 		return l
 	}
 	for _, fl := range d.Fields {
 		need := fl.Req == Required && fl.Default == nil
 		if need || (depth > 0 && r.Chance(1, 2) && constable(fl.Type, cd-1)) {
-			l.Items = append(l.Items, &Lit{K: LString, S: fl.Name}, g.genLit(f, fl.Type, depth-1, cd-1))
+			l.Items = append(l.Items, &Lit{K: LString, S: fl.Name, Field: fl}, g.genLit(f, fl.Type, depth-1, cd-1))
 		}
 	}
 	return l
